@@ -2,7 +2,7 @@
 //! the compiled dylib, driven by seeded decision bytes; oracle on the per-tick records (the
 //! output order *is* the release order) and on the scheduler's decision log.
 
-use e5_harness::*;
+use crate::harness::*;
 
 use crate::corpus::*;
 use crate::oracle::*;
